@@ -77,6 +77,11 @@ class Harness(object):
             return overrides[(argi, base)]
         if sz == 0:
             return Agg(0)
+        if sz is None and k not in ('ptr',):
+            # a value of generic / unknown layout: one opaque atom
+            a = tm.atom('%s@opaque' % name)
+            root.atoms[a] = AtomInfo(argi, base, 0, 'opaque', name, through_ptr, root_ty)
+            return a
         if k in ('int', 'float', 'bool', 'char'):
             a = tm.atom('%s@%d' % (name, base))
             root.atoms[a] = AtomInfo(argi, base, sz, k, name, through_ptr, root_ty)
@@ -87,7 +92,12 @@ class Harness(object):
             ps = F.ptr_size
             if fat is None:
                 if pointee['sz'] is None:
-                    raise Abort('pointer to unsized %s' % pointee['n'])
+                    obj = I.new_obj(None, name + '*', 'arg')
+                    a = tm.atom('%s*@opaque' % name)
+                    root.atoms[a] = AtomInfo(argi, base, 0, 'opaque', name, True, t['to'])
+                    obj.cells['opq'] = (0, a)
+                    root.arg_objs.append((argi, base, obj.id, t['to'], t.get('mut'), None))
+                    return tm.ptr(obj.id, 0)
                 obj = I.new_obj(pointee['sz'], name + '*', 'arg')
                 I.obj_align[obj.id] = pointee['al']
                 v = self.sym(I, root, t['to'], argi, name + '*', 0, True, overrides, depth + 1, t['to'])
